@@ -210,7 +210,7 @@ dt_io_find_strpdt2(
 
 			if (UNLIKELY(q < str)) {
 				q = str;
-			} else if (q > str && *q >= '0' && *q <= '9' &&
+			} else if (q > str && q < zp && *q >= '0' && *q <= '9' &&
 				   q[-1] >= '0' && q[-1] <= '9') {
 				/* the number started further left */
 				continue;
